@@ -42,7 +42,7 @@ func gen(rt *rapid.T) prog {
 	n := rapid.IntRange(2, 50).Draw(rt, "n")
 	for i := 0; i < n; i++ {
 		p.Ops = append(p.Ops, op{
-			Kind:  rapid.SampledFrom([]string{"create", "create", "savepoint", "ackop", "ackop", "ackop", "ackop", "acksr", "acksr", "acksr", "acksr", "restart"}).Draw(rt, "kind"),
+			Kind:  rapid.SampledFrom([]string{"create", "create", "savepoint", "ackop", "ackop", "ackop", "ackop", "acksr", "acksr", "acksr", "acksr", "restart", "newassembly"}).Draw(rt, "kind"),
 			Who:   rapid.SampledFrom([]int{0, 0, 0, 0, 1, 1, 2, 3, 4, 5}).Draw(rt, "who"),
 			IDOff: rapid.SampledFrom([]int{0, 0, 0, 0, 0, -1, 1}).Draw(rt, "idoff"),
 			State: rapid.SliceOfN(rapid.Byte(), 0, 3).Draw(rt, "state"),
@@ -109,7 +109,7 @@ func exec(p prog, c *hx.Case) error {
 	var lastID uint64      // last id handed out by this store instance (or loaded)
 	var maxPublished uint64 // largest id ever published
 	published := map[uint64]bool{}
-	badAcks, restarts, completed := 0, 0, 0
+	badAcks, restarts, completed, abandoned := 0, 0, 0, 0
 	snapPath := func(id uint64) string { return "" }
 	_ = snapPath
 	// waitPublished waits for the publication event and verifies the file
@@ -314,6 +314,19 @@ func exec(p prog, c *hx.Case) error {
 			}
 			pend.srs[who] = true
 			pend.states = append(pend.states, states...)
+		case "newassembly":
+			// the job lost its assembly and starts a new one (jobs.Job.start): a
+			// checkpoint in flight can never complete and is given up; its id stays
+			// used, acknowledgements for it that arrive later are foreign
+			store.AbandonPendingSnapshot()
+			store.RegisterSourceSplitter(&splitter{})
+			if pend != nil {
+				abandoned++
+			}
+			pend = nil
+			if err := noSpurious(step); err != nil {
+				return err
+			}
 		case "restart":
 			// let the asynchronous cleanup of the last publication finish first (C13 covers crashes inside it)
 			deadline := time.Now().Add(5 * time.Second)
@@ -358,11 +371,12 @@ func exec(p prog, c *hx.Case) error {
 		c.NonTrivial()
 	}
 	c.LabelIf(restarts > 0, "restart")
+	c.LabelIf(abandoned > 0, "pending-checkpoint-abandoned-for-a-new-assembly")
 	c.LabelIf(p.SharedIDs, "operator-and-source-runner-share-an-id")
 	c.LabelIf(completed >= 2, ">=2 published")
 	return nil
 }
 
 func TestPropStore(t *testing.T) {
-	hx.Run(t, hx.Spec{Prop: "C12", Rule: "snapshots.Store over a journaling in-memory StorageLocation with assemblies of 1..4 operators and 1..4 source runners: 2..50 calls of CreateCheckpoint / CreateSavepoint / AddOperatorSnapshot / AddSourceSnapshot (expected, duplicate, foreign senders; pending, stale, future ids) / restart (new Store + LoadCheckpoint); a model of the pending checkpoint decides when publication must happen (awaited on the store's own CheckpointEvents) and when it must not, and checks the published file entry by entry (one entry per operator, the first acknowledgement's split states of each runner, id strictly above everything published); non-trivial = >=1 checkpoint published and >=1 bad acknowledgement"}, gen, exec)
+	hx.Run(t, hx.Spec{Prop: "C12", Rule: "snapshots.Store over a journaling in-memory StorageLocation with assemblies of 1..4 operators and 1..4 source runners: 2..50 calls of CreateCheckpoint / CreateSavepoint / AddOperatorSnapshot / AddSourceSnapshot (expected, duplicate, foreign senders; pending, stale, future ids) / restart (new Store + LoadCheckpoint) / a new assembly (AbandonPendingSnapshot + RegisterSourceSplitter, as jobs.Job.start does; the abandoned id stays used and later acknowledgements for it are foreign); in a quarter of the cases operator i and source runner i share a node id; a model of the pending checkpoint decides when publication must happen (awaited on the store's own CheckpointEvents) and when it must not, and checks the published file entry by entry (one entry per operator, the first acknowledgement's split states of each runner, id strictly above everything published); non-trivial = >=1 checkpoint published and >=1 bad acknowledgement"}, gen, exec)
 }
